@@ -47,7 +47,11 @@ def history(ctx: Ctx, n_ops: int, hid: int) -> dict:
     blobs: list[tuple[bytes, bytes]] = []
     pts = [b"", b"same plaintext", rng.randbytes(rng.randrange(1, 70))]
     kw = dict(server="dc01", username=USER, password=refdc.PASSWORD, auth_protocol="ntlm")
+    import random as global_random
+
     for k in range(n_ops):
+        if hid % 3 == 0 and k % 4 == 0:
+            global_random.seed(20231003)      # a host application reseeding the *global* PRNG is ordinary behaviour
         op = rng.random()
         if op < 0.75 or not blobs:
             pt = rng.choice(pts)
